@@ -40,7 +40,8 @@ SubstFails(e) ==
         S(t) == Subst(srcs, t, {})
         expected == << S(<<V("option.a")>>), S(<<T("pre-"), V("option.a"), T("-post")>>), S(<<V("option.zzz")>>), S(<<[var |-> "unknown.var", res |-> FALSE]>>),
                        "$HOME ${} {x}", S(<<V("job.name")>>), S(<<V("task.retry_index")>>), S(<<V("jobconfig.name"), T("|"), V("option.b")>>),
-                       S(<<T("img:"), V("option.a")>>), S(<<V("option.a")>>) >>
+                       S(<<T("img:"), V("option.a")>>), S(<<V("option.a")>>),
+                       "1", S(<<V("option.a")>>) >>       \* the retry rendered from the same Job object: its own retry index, the same option value
         valid == Has(e, "value") => Has(e, "default")      \* a value can only be submitted for a declared option
     IN IF ~valid THEN {} ELSE
          Fail("C18_Deterministic", e.err = "" /\ e.stable)
